@@ -261,6 +261,27 @@ impl<'a> Ctx<'a> {
         }
     }
 
+    /// `dst.clone_from(src)`: the value that lived under `dst_id` is gone (a `drop` event), the object continues under a
+    /// fresh id as a clone of `src`.  Returns the new id (None: not `Clone`, or different types).
+    pub fn clone_from(&mut self, dst_id: u64, dst: &mut Box<dyn Inst>, src_id: u64, src: &dyn Inst) -> Option<u64> {
+        let r = catch(std::panic::AssertUnwindSafe(|| dst.clone_from_inst(src)));
+        match r {
+            Ok(false) => None,
+            Ok(true) => {
+                self.emit(json!({"ev":"drop","id":dst_id,"out":"ok"}));
+                let id = self.fresh_id();
+                self.emit(json!({"ev":"clone","src":src_id,"id":id,"out":"ok","via":"clone_from"}));
+                Some(id)
+            }
+            Err(m) => {
+                self.emit(json!({"ev":"drop","id":dst_id,"out":"ok"}));
+                let id = self.fresh_id();
+                self.emit(json!({"ev":"clone","src":src_id,"id":id,"out":"panic","msg":m,"via":"clone_from"}));
+                None
+            }
+        }
+    }
+
     pub fn conv_ref(&mut self, src: u64, inst: &dyn Inst, to: &str) -> Option<(u64, Box<dyn Inst>)> {
         let r = catch(|| inst.conv_ref(to));
         match r {
